@@ -124,9 +124,21 @@ def after_io_fault(world, ctx):
     if world.prop == "C06":
         # C06 binds error paths too: whatever the failed call left behind,
         # an index that claims to be valid must equal a rebuild
+        flushed = True
+        if world.csv and world.db is not None:
+            # rows the failed call left in the handle's write buffer belong
+            # to the logical contents: push them out before reading the file
+            try:
+                with world.observer():
+                    world.db.storage._handle.flush()
+                world.pending = 0
+            except (OSError, ValueError, AttributeError):
+                flushed = False
         try:
             ctx["actual"] = world.observe()
         except DecodeError:
+            ctx.pop("actual", None)
+        if not flushed:
             ctx.pop("actual", None)
         if "actual" in ctx and world.db is not None:
             world.faulted_index_check = True
